@@ -10,11 +10,15 @@ Ties (model evaluated by vm_compute inside coqc, Export.tb_val / Export.df_val):
                 0..R-1 or of an arbitrary subset of a job's ranks) with --tb and --tb --disable_file; the combined
                 view's (index, pid) list is the model's input, the worker files / views are the observation.
   * df_direct : the real DataframeExporter on generated event object lists; observed = the rows of get_data().
+                Large lists (hundreds .. ~12000 events, any batching of the export calls) are driven too, for the
+                oracle only (no Coq literal).
 Oracle (independent brute-force statement of the property on the implementation's output, in terms of files):
   for ANY set of present rank ids (>= 2 of them): one worker file per present rank and none for an absent one,
   worker r == the exported events with pid r or 1000+r in order, every event with an int pid >= 0 in exactly one
   worker, combined == everything; DataFrame rows == the ph "X" events of the JSON export of the same inputs
-  (count, order, rank, ts, dur, name); --disable_file.
+  (count, order, rank, ts, dur, name), for the frame handed out by the API (get_output_data(), with and without
+  --disable_file) AND for the table that -f pddf writes (parsed back line by line; numbers at the precision the
+  table shows), on small scenarios and on a few long traces (5000..9000 slices over 2-4 ranks; more in thorough).
 """
 import contextlib
 import glob
@@ -533,8 +537,82 @@ def _py(v):
     return v
 
 
+def gen_df_big(r, n=None):
+    """a LARGE export (size region), kept compact: the event list is a deterministic function of (n, ranks, seed).
+    n events (mostly slices, a few counters/metadata/instants in between), any batching of the export() calls"""
+    if n is None:
+        x = r.random()
+        if x < 0.25:
+            n = r.choice([1 << k for k in range(8, 14)]) + r.choice([-1, 0, 1])       # around a power of two
+        elif x < 0.5:
+            n = r.choice([500, 1000, 2000, 2500, 5000, 10000]) + r.choice([-1, 0, 1, r.randint(2, 99)])
+        else:
+            n = int(math.exp(r.uniform(math.log(300), math.log(12000))))
+    R = r.randint(2, 4)
+    ranks = list(range(R)) if r.random() < 0.6 else sorted(r.sample(range(0, 12), R))
+    c = {"big": {"n": n, "ranks": ranks, "seed": r.randrange(1 << 30)}, "save": r.random() < 0.6, "malformed": False}
+    x = r.random()
+    if x < 0.3:
+        c["cuts"] = []                                                   # one export() call (the final drain)
+    elif x < 0.6:
+        c["cuts"] = sorted(r.sample(range(n + 1), min(n + 1, r.randint(1, 6))))
+    else:
+        c["batch"] = r.choice([1, 7, 100, 256, 1000, 1024, 4096, r.randint(2, 5000)])
+    return c
+
+
+def df_big_events(b):
+    rr = random.Random(b["seed"])
+    evs, t = [], 1000.0
+    for i in range(b["n"]):
+        rk = rr.choice(b["ranks"])
+        t += rr.randrange(1, 64) / 8.0
+        if rr.random() < 0.06:
+            evs.append({"k": rr.choice(["C", "M", "i"]), "name": f"n{i % 5}", "ts": t, "pid": rk})
+            continue
+        kern = rr.random() < 0.5
+        evs.append({"k": "X", "name": f"op{i % 41} Cmpt Exec" if kern else f"host{i % 13}", "ts": t,
+                    "dur": rr.randrange(1, 400) / 8.0, "pid": rk if kern else 1000 + rk,
+                    "cat": "kernel" if kern else "cpu_op", "args": {"rank": rk, "uid": i}})
+    return evs
+
+
+def df_events(case):
+    return case["events"] if "events" in case else df_big_events(case["big"])
+
+
+def df_cuts(case, n):
+    if case.get("batch"):
+        return list(range(case["batch"], n, case["batch"]))
+    return [c for c in case.get("cuts", []) if c <= n]
+
+
+def parse_table(text):
+    """the table -f pddf writes: a title line, then one line per row, every cell right-aligned under its title
+    (DataFrame.to_string(index=False)).  Returns the rows as lists of 9 cell strings, or enc.Err."""
+    lines = text.split("\n")
+    if lines and lines[0].startswith("Empty DataFrame"):
+        return []
+    ends, pos = [], 0
+    for col in DF_COLS:
+        i = lines[0].find(col, pos)
+        if i < 0:
+            return enc.Err("table_title:" + lines[0][:120])
+        pos = i + len(col)
+        ends.append(pos)
+    rows = []
+    for ln in lines[1:]:
+        cells, a = [], 0
+        for k, e in enumerate(ends):
+            cells.append((ln[a:e] if k < len(ends) - 1 else ln[a:]).strip())
+            a = e
+        rows.append(cells)
+    return rows
+
+
 def drive_df(case, workdir):
-    """returns (observed for the tie = [rows, file_written], json X events of the JsonFileTraceExporter)"""
+    """returns (observed for the tie = [rows, file_written], json X events of the JsonFileTraceExporter,
+    the written table parsed back (None when no file was written))"""
     import aiu_trace_analyzer.export.exporter as ex
     import aiu_trace_analyzer.trace_view as tv
     _clean(workdir)
@@ -542,10 +620,10 @@ def drive_df(case, workdir):
     jpath = os.path.join(workdir, "j.json")
     try:
         with quiet():
-            evs = _mk_df_events(tv, case["events"])
+            evs = _mk_df_events(tv, df_events(case))
             exp = ex.DataframeExporter(target_uri=path, settings={"output": path, "save_to_file": case["save"]})
             jexp = ex.JsonFileTraceExporter(target_uri=jpath, settings={"output": jpath, "save_to_file": False})
-            bounds = [0] + list(case["cuts"]) + [len(evs)]
+            bounds = [0] + df_cuts(case, len(evs)) + [len(evs)]
             for a, b in zip(bounds, bounds[1:]):
                 exp.export(evs[a:b])
                 jexp.export(evs[a:b])
@@ -553,12 +631,13 @@ def drive_df(case, workdir):
             jexp.flush()
             df = exp.get_data()
             if list(df.columns) != DF_COLS:
-                return [enc.Err("columns:" + ",".join(map(str, df.columns))), os.path.exists(path)], []
+                return [enc.Err("columns:" + ",".join(map(str, df.columns))), os.path.exists(path)], [], None
             rows = [[_py(v) for v in t] for t in df.itertuples(index=False, name=None)]
             jx = [e for e in json.loads(jexp.get_data())["traceEvents"] if e.get("ph") == "X"]
-            return [rows, os.path.exists(path)], jx
+            table = parse_table(open(path).read()) if os.path.exists(path) else None
+            return [rows, os.path.exists(path)], jx, table
     except Exception as e:  # noqa: BLE001
-        return enc.Err(type(e).__name__), []
+        return enc.Err(type(e).__name__), [], None
 
 
 def coq_q(x):
@@ -593,17 +672,39 @@ def _num_eq(a, b):
         return a == b
 
 
+def _want_row(e):
+    """(rank, ts, dur, name) of a ph X event of the JSON export"""
+    return [e.get("args", {}).get("rank", 0) if isinstance(e.get("args"), dict) else 0, e["ts"], e["dur"], e["name"]]
+
+
+def _count_detail(n_rows, got_keys, jx):
+    """how a wrong row count splits up: slices without a row / rows without a slice (multisets)"""
+    def key(r4):
+        return json.dumps([float(v) if isinstance(v, (int, float)) and not isinstance(v, bool) else v for v in r4])
+    want = {}
+    for e in jx:
+        k = key(_want_row(e))
+        want[k] = want.get(k, 0) + 1
+    extra = 0
+    for k in map(key, got_keys):
+        if want.get(k, 0) > 0:
+            want[k] -= 1
+        else:
+            extra += 1
+    return {"rows": n_rows, "slices_without_a_row": sum(want.values()), "rows_without_a_slice": extra}
+
+
 def oracle_df_rows(rows, jx, stream):
     """rows: DataFrame rows (first five columns used: rank, ts, dur, cat, name); jx: the ph X dicts of the JSON export"""
     fails = []
     if len(rows) != len(jx):
-        fails.append({"expected": len(jx), "observed": len(rows),
+        fails.append({"expected": {"rows": len(jx)},
+                      "observed": _count_detail(len(rows), [[r[0], r[1], r[2], r[4]] for r in rows], jx),
                       "signature": {"kind": "df_row_count", "stream": stream,
                                     "more_rows": len(rows) > len(jx)}})
         return fails
     for i, (row, e) in enumerate(zip(rows, jx)):
-        want = [e.get("args", {}).get("rank", 0) if isinstance(e.get("args"), dict) else 0, e["ts"], e["dur"],
-                e["name"]]
+        want = _want_row(e)
         got = [row[0], row[1], row[2], row[4]]
         for col, w, g in zip(["rank", "ts", "dur", "name"], want, got):
             if not (_num_eq(w, g) if col != "name" else w == g):
@@ -613,33 +714,91 @@ def oracle_df_rows(rows, jx, stream):
     return fails
 
 
+def _shown_eq(cell, w):
+    """does the number printed in the table denote w at the precision the table shows?"""
+    try:
+        v = float(cell)
+        m, _, ex = cell.lower().partition("e")
+        dec = len(m.split(".")[1]) if "." in m else 0
+        tol = 0.5 * 10.0 ** (int(ex or 0) - dec)
+        return abs(v - float(w)) <= tol * (1 + 1e-9) + abs(float(w)) * 1e-15
+    except (ValueError, TypeError, OverflowError):
+        return cell == str(w).strip()
+
+
+def oracle_df_table(trows, jx, stream):
+    """trows: the rows of the written table (parse_table); jx: the ph X dicts of the JSON export of the same input.
+    One line per exported slice, in order, same rank / timestamp / duration (as printed) / name."""
+    if isinstance(trows, enc.Err):
+        return [{"expected": "a table with the title line " + " ".join(DF_COLS), "observed": repr(trows),
+                 "signature": {"kind": "df_table_unreadable", "stream": stream}}]
+    if len(trows) != len(jx):
+        return [{"expected": {"lines": len(jx)}, "observed": {"lines": len(trows)},
+                 "signature": {"kind": "df_table_row_count", "stream": stream, "more_rows": len(trows) > len(jx)}}]
+    for i, (cells, e) in enumerate(zip(trows, jx)):
+        want = _want_row(e)
+        got = [cells[0], cells[1], cells[2], cells[4]]
+        for col, w, g in zip(["rank", "ts", "dur", "name"], want, got):
+            if not (_shown_eq(g, w) if col != "name" else g == str(w).strip()):
+                return [{"expected": {"line": i, col: w}, "observed": {"line": i, col: g},
+                         "signature": {"kind": "df_table_row_differs", "stream": stream, "column": col}}]
+    return []
+
+
+def df_case_failures(c, workdir):
+    """all oracle failures of one direct-drive DataFrame case"""
+    obs, jx, table = drive_df(c, workdir)
+    if isinstance(obs, enc.Err):
+        return [{"expected": "export completes", "observed": repr(obs),
+                 "signature": {"kind": "df_exception", "stream": "direct", "exc": obs.tag}}]
+    rows, written = obs
+    if isinstance(rows, enc.Err):
+        return [{"expected": DF_COLS, "observed": repr(rows),
+                 "signature": {"kind": "df_columns", "stream": "direct"}}]
+    fs = oracle_df_rows(rows, jx, "direct")
+    if written != c["save"]:
+        fs.append({"expected": c["save"], "observed": written,
+                   "signature": {"kind": "df_file_vs_save_to_file", "stream": "direct", "save": c["save"]}})
+    if table is not None:
+        fs += oracle_df_table(table, jx, "direct")
+    return fs
+
+
 def df_direct_failure(case, workdir, shrink=True):
     def fl(c):
-        obs, jx = drive_df(c, workdir)
-        if isinstance(obs, enc.Err):
-            return [{"expected": "export completes", "observed": repr(obs),
-                     "signature": {"kind": "df_exception", "stream": "direct", "exc": obs.tag}}]
-        rows, written = obs
-        if isinstance(rows, enc.Err):
-            return [{"expected": DF_COLS, "observed": repr(rows),
-                     "signature": {"kind": "df_columns", "stream": "direct"}}]
-        fs = oracle_df_rows(rows, jx, "direct")
-        if written != c["save"]:
-            fs.append({"expected": c["save"], "observed": written,
-                       "signature": {"kind": "df_file_vs_save_to_file", "stream": "direct", "save": c["save"]}})
-        return fs
+        return df_case_failures(c, workdir)
     fs = fl(case)
     if not fs:
         return None
     kind = fs[0]["signature"]["kind"]
-    if shrink:
-        evs = shrink_list(case["events"], lambda ev: any(
-            f["signature"]["kind"] == kind for f in fl(dict(case, events=ev, cuts=[]))))
+
+    def bad(c):
+        return any(f["signature"]["kind"] == kind for f in fl(c))
+    if shrink and "big" in case:
+        # a size effect: the smallest n (same ranks / seed, one export call, then the original batching) that fails
+        for base in (dict(case, cuts=[], batch=None), case):
+            if not bad(dict(base, big=dict(case["big"], n=case["big"]["n"]))):
+                continue
+            lo, hi = 0, case["big"]["n"]
+            while hi - lo > 1:
+                mid = (lo + hi) // 2
+                if bad(dict(base, big=dict(case["big"], n=mid))):
+                    hi = mid
+                else:
+                    lo = mid
+            case = dict(base, big=dict(case["big"], n=hi))
+            break
+        fs = [f for f in fl(case) if f["signature"]["kind"] == kind] or fs
+    elif shrink:
+        evs = shrink_list(case["events"], lambda ev: bad(dict(case, events=ev, cuts=[])))
         case = dict(case, events=evs, cuts=[])
         fs = [f for f in fl(case) if f["signature"]["kind"] == kind] or fs
     f = fs[0]
+    sig = dict(f["signature"])
+    if "big" in case:
+        sig["large"] = True
     return {"input": {"kind": "df_direct", "case": case}, "expected": f["expected"], "observed": f["observed"],
-            "signature": f["signature"]}
+            "signature": sig}
 
 
 # ======================================================================= end to end
@@ -699,6 +858,50 @@ def gen_scenario(r, malformed=False):
     return {"pids": pids, "files": files, "R": R, "target": r.choice(["out.json", "out.json", "t.pt.trace.json"])}
 
 
+E2E_CONFIGS = ["tb", "tbnf", "json", "jsonnf", "pddf", "pddfnf"]
+
+
+def gen_big_scenario(r, lo, hi):
+    """a LONG multi-rank trace (size region), kept compact: 2-4 one-rank FLEX files with lo..hi slices in total, simple
+    host / kernel slices, sequential per rank; the files are a deterministic function of (pids, n, seed)"""
+    R = r.randint(2, 4)
+    pids = list(range(R)) if r.random() < 0.6 else sorted(r.sample(range(0, R + 4), R))
+    total = r.randint(lo, hi)
+    w = [r.uniform(0.6, 1.4) for _ in pids]
+    n = [max(1, int(total * x / sum(w))) for x in w]
+    return {"pids": pids, "big": {"n": n, "seed": r.randrange(1 << 30)}, "R": R, "target": "out.json",
+            "configs": ["json", "pddf", "pddfnf", "tb"]}
+
+
+def big_files(pids, b):
+    files = []
+    for pid, n in zip(pids, b["n"]):
+        rr = random.Random(b["seed"] * 131 + pid)
+        evs = []
+        t = 1000.0 + rr.randrange(0, 64) / 4.0
+        c = 1000000 + rr.randrange(0, 1000) * 16
+        for k in range(n):
+            d = rr.randrange(4, 40) / 4.0
+            if rr.random() < 0.5:
+                evs.append({"name": f"op{k % 37} Cmpt Exec", "ph": "X", "pid": pid, "tid": 7, "ts": t, "dur": d,
+                            "args": {"TS1": str(c), "TS2": str(c + 16), "TS3": str(c + 32), "TS4": str(c + 4096),
+                                     "TS5": str(c + 4160), "Power": str(100 + k % 50)}})
+                c += 16384
+            else:
+                evs.append({"name": f"host{k % 11}", "ph": "X", "pid": pid, "tid": 3, "ts": t, "dur": d, "args": {}})
+            t += d + rr.randrange(4, 40) / 4.0
+        files.append(evs)
+    return files
+
+
+def sc_files(sc):
+    return sc["files"] if "files" in sc else big_files(sc["pids"], sc["big"])
+
+
+def sc_key(sc):
+    return sc["files"] if "files" in sc else [sc["pids"], sc["big"]]
+
+
 def _run_acelyzer(argv):
     from aiu_trace_analyzer.core.acelyzer import Acelyzer
     with quiet():
@@ -738,8 +941,9 @@ def drive_e2e(ctx, sc, indir, paths, outroot):
     os.makedirs(indir, exist_ok=True)
     for p in glob.glob(os.path.join(indir, "*")):
         os.remove(p)
-    used = paths[:len(sc["files"])]
-    for p, evs in zip(used, sc["files"]):
+    files = sc_files(sc)
+    used = paths[:len(files)]
+    for p, evs in zip(used, files):
         json.dump(evs, open(p, "w"))
     inp = ",".join(used)
     fails, tb_cases = [], []
@@ -756,10 +960,13 @@ def drive_e2e(ctx, sc, indir, paths, outroot):
         return d
 
     results = {}
+    configs = sc.get("configs") or E2E_CONFIGS
     for tag, extra, target in [("tb", ["--tb"], sc["target"]), ("tbnf", ["--tb", "--disable_file"], sc["target"]),
                                ("json", [], "out.json"), ("jsonnf", ["--disable_file"], "out.json"),
                                ("pddf", ["-f", "pddf"], "out.txt"),
                                ("pddfnf", ["-f", "pddf", "--disable_file"], "out.txt")]:
+        if tag not in configs:
+            continue
         d = outdir(tag)
         try:
             a, rc = _run_acelyzer(["-i", inp, "-o", os.path.join(d, target), "-D", "0"] + extra)
@@ -793,7 +1000,8 @@ def drive_e2e(ctx, sc, indir, paths, outroot):
         case["ranks_only_in_export"] = sorted(extra)
         if not set(sc["pids"]) <= ranks_of(case) or not extra <= {0}:
             fail("e2e_exported_ranks_differ_from_input_ranks", sorted(sc["pids"]), sorted(ranks_of(case)), config=tag)
-        tb_cases.append((case, obs))
+        if "big" not in sc:             # the long traces are for the oracle only (no Coq literal)
+            tb_cases.append((case, obs))
         for f in oracle_tb(case, obs, "e2e"):
             f["signature"]["config"] = tag
             fails.append(f)
@@ -835,8 +1043,20 @@ def drive_e2e(ctx, sc, indir, paths, outroot):
         written = os.path.exists(os.path.join(d, target))
         if written != (tag == "pddf"):
             fail("df_file_vs_save_to_file", tag == "pddf", written, save=(tag == "pddf"))
+        if written and jx is not None:
+            # the table that was written, read back line by line
+            try:
+                trows = parse_table(open(os.path.join(d, target)).read())
+            except Exception as e:  # noqa: BLE001
+                trows = enc.Err(type(e).__name__)
+            for f in oracle_df_table(trows, jx, "e2e"):
+                f["signature"]["config"] = tag
+                fails.append(f)
     if len(dfs) == 2 and dfs["pddf"] != dfs["pddfnf"]:
         fail("df_differs_with_disable_file", len(dfs["pddf"]), len(dfs["pddfnf"]))
+    if "big" in sc:
+        for f in fails:
+            f["signature"]["large"] = True
     return tb_cases, fails, (len(jx) if jx is not None else 0)
 
 
@@ -849,7 +1069,26 @@ def e2e_failure(ctx, sc, env, shrink=True):
 
     def bad(s):
         return any(f["signature"]["kind"] == kind for f in drive_e2e(ctx, s, indir, paths, outroot)[1])
-    if shrink:
+    if shrink and "big" in sc:
+        # a size effect: bisect the length of the trace (same ranks / seed) within a time budget
+        t0 = time.time()
+        tot = sum(sc["big"]["n"])
+
+        cfg = fs[0]["signature"].get("config")
+        narrow = ["json", cfg] if cfg in ("pddf", "pddfnf") else sc.get("configs")
+
+        def scaled(m, configs=narrow):
+            return dict(sc, configs=configs, big=dict(sc["big"], n=[max(1, x * m // tot) for x in sc["big"]["n"]]))
+        lo, hi = 0, tot
+        while hi - lo > 1 and time.time() - t0 < 45:
+            mid = (lo + hi) // 2
+            if bad(scaled(mid)):
+                hi = mid
+            else:
+                lo = mid
+        sc = scaled(hi, sc.get("configs"))
+        fs = [f for f in drive_e2e(ctx, sc, indir, paths, outroot)[1] if f["signature"]["kind"] == kind] or fs
+    elif shrink:
         t0 = time.time()
         # fewer events per rank (keep at least one so that every rank stays present)
         for k in range(len(sc["files"])):
@@ -908,9 +1147,11 @@ def run(ctx):
     dist = {"tb_direct": {"asserted_multi_rank": 0, "dense_0_to_R-1": 0, "sparse_or_offset": 0, "single_or_no_rank": 0,
                           "tie_only": 0, "malformed": {}, "grid": 0, "corpus": 0, "ranks": {}, "with_m1": 0,
                           "save_false": 0, "odd_target": 0, "duplicates": 0},
-            "df_direct": {"cases": 0, "malformed": 0, "slices": 0, "non_slices": 0},
+            "df_direct": {"cases": 0, "malformed": 0, "slices": 0, "non_slices": 0, "tables_read_back": 0,
+                          "large_cases": 0, "large_sizes": [], "large_tables_read_back": 0},
             "e2e": {"scenarios": 0, "ranks": {}, "dense_0_to_R-1": 0, "sparse_or_offset": 0, "single_rank": 0,
-                    "runs": 0, "exported_slices": 0, "tb_runs_with_default_pid0_metadata_only_rank0": 0}}
+                    "runs": 0, "exported_slices": 0, "tb_runs_with_default_pid0_metadata_only_rank0": 0,
+                    "long_traces": []}}
     try:
         # ---------------------------------------------------------------- TB direct
         corpus = load_corpus()
@@ -963,12 +1204,14 @@ def run(ctx):
         phase("tb_direct_drive")
         # ---------------------------------------------------------------- e2e
         scs = [c["scenario"] for c in corpus if c.get("kind") == "e2e"]
+        for _ in range(ctx.pick(3, 12)):            # the long traces first: they must not fall to the time limit
+            scs.append(gen_big_scenario(r, 5000, ctx.pick(9000, 20000)))
         for _ in range(ctx.pick(150, 1500)):
             scs.append(gen_scenario(r, malformed=r.random() < 0.08))
         e2e_cases = []
         t_stream, n_bad = time.time(), 0
         for si, sc in enumerate(scs):
-            if n_bad >= 40 or time.time() - t_stream > ctx.pick(150, 900):
+            if n_bad >= 40 or time.time() - t_stream > ctx.pick(180, 1200):
                 notes.append(f"e2e stream stopped after {si} of {len(scs)} scenarios "
                              f"({n_bad} failing scenarios, {time.time() - t_stream:.0f}s)")
                 scs = scs[:si]
@@ -976,8 +1219,11 @@ def run(ctx):
             cases, fs, nx = drive_e2e(ctx, sc, indir, paths, outroot)
             n_bad += int(bool(fs))
             dist["e2e"]["scenarios"] += 1
-            dist["e2e"]["runs"] += 6
+            dist["e2e"]["runs"] += len(sc.get("configs") or E2E_CONFIGS)
             dist["e2e"]["exported_slices"] += nx
+            if "big" in sc:
+                dist["e2e"]["long_traces"].append({"ranks": sc["pids"], "input_slices": sum(sc["big"]["n"]),
+                                                   "exported_slices": nx, "configs": sc["configs"]})
             dist["e2e"]["ranks"][len(sc["pids"])] = dist["e2e"]["ranks"].get(len(sc["pids"]), 0) + 1
             dist["e2e"]["single_rank" if len(sc["pids"]) < 2 else
                         ("dense_0_to_R-1" if sc["pids"] == list(range(len(sc["pids"]))) else "sparse_or_offset")] += 1
@@ -989,7 +1235,7 @@ def run(ctx):
                 e2e_cases.append((c, sc))
                 tb_terms.append((coq_tb_case(c), enc.V(obs)))
                 if len(ranks_of(c)) >= 2:
-                    seen_nt.add(("e2e", json.dumps([sc["files"], c["save"], c["target"]])))
+                    seen_nt.add(("e2e", json.dumps([sc_key(sc), c["save"], c["target"]])))
         phase("e2e_drive")
         n_direct = len(tb_cases)
         bad, extras, secs = coqrun.run_cases(
@@ -1008,7 +1254,9 @@ def run(ctx):
                  "mismatching": len(bad), "coq_seconds": round(secs, 1), "nontrivial_in_coq": extras.get("nt")}]
         phase("coq_tb")
         # ---------------------------------------------------------------- DF direct
-        df_cases = [c["case"] for c in corpus if c.get("kind") == "df_direct"]
+        df_all = [c["case"] for c in corpus if c.get("kind") == "df_direct"]
+        df_cases = [c for c in df_all if "big" not in c]
+        df_big = [c for c in df_all if "big" in c]
         for _ in range(ctx.pick(600, 6000)):
             df_cases.append(gen_df_case(r, malformed=r.random() < 0.15))
         df_terms = []
@@ -1018,17 +1266,18 @@ def run(ctx):
                 notes.append(f"df_direct stream stopped after {ci} of {len(df_cases)} cases")
                 df_cases = df_cases[:ci]
                 break
-            obs, jx = drive_df(c, wd)
+            obs, jx, table = drive_df(c, wd)
             df_terms.append((coq_df_case(c), enc.V(obs)))
             if not c.get("malformed") or True:
                 f = None
                 if isinstance(obs, enc.Err) or isinstance(obs[0], enc.Err) or oracle_df_rows(obs[0], jx, "direct") \
-                        or obs[1] != c["save"]:
+                        or obs[1] != c["save"] or (table is not None and oracle_df_table(table, jx, "direct")):
                     f = df_direct_failure(c, wd, shrink=False)
                 if f and n_fail("df_direct") < 15:
                     oracle_failures.append(f)
             d = dist["df_direct"]
             d["cases"] += 1
+            d["tables_read_back"] += int(table is not None)
             d["malformed"] += int(bool(c.get("malformed")))
             d["slices"] += sum(1 for e in c["events"] if e["k"] == "X")
             d["non_slices"] += sum(1 for e in c["events"] if e["k"] != "X")
@@ -1036,6 +1285,27 @@ def run(ctx):
                                                                          if e["k"] == "X"}) >= 2:
                 seen_nt.add(("df", json.dumps(c["events"], sort_keys=True)))
         phase("df_direct_drive")
+        # large exports (size region): oracle only, no Coq literal
+        for _ in range(ctx.pick(24, 200)):
+            df_big.append(gen_df_big(r))
+        t_stream = time.time()
+        for ci, c in enumerate(df_big):
+            if time.time() - t_stream > ctx.pick(40, 300):
+                notes.append(f"df_direct large stream stopped after {ci} of {len(df_big)} cases")
+                df_big = df_big[:ci]
+                break
+            fs = df_case_failures(c, wd)
+            if fs and n_fail("df_direct") < 15:
+                f = fs[0]
+                oracle_failures.append({"input": {"kind": "df_direct", "case": c}, "expected": f["expected"],
+                                        "observed": f["observed"], "signature": dict(f["signature"], large=True)})
+            d = dist["df_direct"]
+            d["large_cases"] += 1
+            d["large_sizes"].append(c["big"]["n"])
+            d["large_tables_read_back"] += int(c["save"])
+            seen_nt.add(("df", json.dumps(c, sort_keys=True)))
+        dist["df_direct"]["large_sizes"].sort()
+        phase("df_direct_large")
         bad2, _, secs2 = coqrun.run_cases(
             "C18_df", "From AiuModel Require Import Export.", "(list tvev * bool)", "df_val", df_terms)
         for j in bad2[:4]:
@@ -1072,18 +1342,18 @@ def run(ctx):
         notes.append("seconds per phase: " + json.dumps(phase_t))
         n_tb_nt = len([1 for k in seen_nt if k[0] in ("tb", "e2e")])
         return {
-            "evaluations": len(tb_terms) + len(df_terms) + 4 * len(scs),
+            "evaluations": len(tb_terms) + len(df_terms) + len(df_big) + 4 * len(scs),
             "distinct_nontrivial": len(seen_nt),
             "rule": "distinct cases with >= 2 ranks: TB cases (direct drive: distinct (events, devices, save_to_file, "
                     "target); end to end: distinct (scenario files, save_to_file, target)) whose exported events carry "
                     f">= 2 distinct non-negative folded rank ids ({n_tb_nt}), plus DataFrame cases with >= 1 slice and "
-                    f">= 2 distinct ranks among the slices ({len(seen_nt) - n_tb_nt}). The same >= 2-ranks rule "
+                    f">= 2 distinct ranks among the slices, incl. the large ones ({len(seen_nt) - n_tb_nt}). The same >= 2-ranks rule "
                     f"evaluated inside Coq over all TB cases incl. duplicates: {extras.get('nt')}. "
                     f"Exhaustive part: every pid list of length <= {ctx.pick(4, 5)} over "
                     "{-1,0,1,2,1000,1001} (" + str(len(grid)) + " cases).",
             "samples": [tb_cases[len(grid) + dist["tb_direct"]["corpus"] + 1] if len(tb_cases) > len(grid) + 1 else {},
                         df_cases[-1] if df_cases else {},
-                        {"scenario_pids": scs[-1]["pids"], "files": [len(f) for f in scs[-1]["files"]]} if scs else {}],
+                        {"scenario_pids": scs[-1]["pids"], "files": [len(f) for f in sc_files(scs[-1])]} if scs else {}],
             "mismatches": mismatches, "oracle_failures": shrunk, "ties": ties, "distribution": dist,
             "exhaustive": True, "notes": notes,
             "traces_validated_against_impl": len(tb_terms) + len(df_terms),
@@ -1116,6 +1386,10 @@ def search(ctx, res, broken):
             f = df_direct_failure(gen_df_case(r, malformed=r.random() < 0.2), wd)
             if f:
                 return [f]
+            if n % 25 == 0:
+                f = df_direct_failure(gen_df_big(r), wd)
+                if f:
+                    return [f]
             if n % 10 == 0:
                 f = e2e_failure(ctx, gen_scenario(r), (indir, paths, outroot))
                 if f:
